@@ -63,3 +63,10 @@ Definition cli_request (specs : list (string * callspec)) (name : string) (args 
       end
   | _ => None
   end.
+
+(* was the operation the command calls translated (without refusal) by the API translator in THIS run? *)
+Definition cli_translated (specs : list (string * callspec)) (name : string) : bool :=
+  match assoc_str specs name with
+  | Some (CSingle m _) => is_supported m
+  | _ => false
+  end.
